@@ -143,7 +143,8 @@ fn main() {
     let threads: usize = arg_val(&args, "--threads").and_then(|s| s.parse().ok()).unwrap_or_else(|| std::thread::available_parallelism().map(|n| n.get()).unwrap_or(4));
     let only = arg_val(&args, "--only");
     let profile = arg_val(&args, "--profile").unwrap_or_else(|| "dbg".into());
-    let evidence_path = arg_val(&args, "--evidence");
+    // a run restricted with --only is a debugging aid: it must not replace the evidence of the full check
+    let evidence_path = arg_val(&args, "--evidence").map(|p| if only.is_some() { format!("{p}.partial") } else { p });
     let known = load_known(&arg_val(&args, "--known").unwrap_or_else(|| "/verif/known-findings.json".into()));
     let budget: u64 = arg_val(&args, "--budget-s").and_then(|s| s.parse().ok()).unwrap_or(if tier == Tier::Quick { 240 } else { 3000 });
 
